@@ -122,6 +122,79 @@ def operator_table():
     return n, results, failures
 
 
+def _cast_key(cell, status):
+    return f"{cell[3]}:{'strict' if cell[2] else 'lenient'}:{':'.join(status.split(':')[:2])}"
+
+
+def cast_table():
+    """Every cast the type checker accepts (source kind x source type x target type x strict flag) x backend:
+    compiles, or NotSupportedError."""
+    import datetime as dt
+
+    import polars as pl
+    import sqlalchemy as sqa
+
+    import pydiverse.transform as pdt
+    from pydiverse.transform._internal.errors import DataTypeError, NotSupportedError
+
+    from .. import env as _env
+
+    md = sqa.MetaData()
+    st = sqa.Table("t0", md, sqa.Column("i", sqa.BigInteger), sqa.Column("f", sqa.Double), sqa.Column("s", sqa.String),
+                   sqa.Column("b", sqa.Boolean), sqa.Column("d", sqa.Date), sqa.Column("t", sqa.DateTime),
+                   sqa.Column("i16", sqa.SmallInteger), sqa.Column("i32", sqa.Integer), sqa.Column("f32", sqa.REAL))
+    tables = {"polars": pdt.Table(pl.DataFrame(
+        {"i": [1, 2], "f": [1.5, 2.5], "s": ["a", "b"], "b": [True, False], "d": [dt.date(2000, 1, 1)] * 2,
+         "t": [dt.datetime(2000, 1, 1)] * 2, "i16": [1, 2], "i32": [1, 2], "f32": [1.5, 2.5]},
+        schema_overrides={"i16": pl.Int16, "i32": pl.Int32, "f32": pl.Float32}), name="t0")}
+    for d in DIALECTS:
+        tables[d] = pdt.Table(st, pdt.SqlAlchemy(_env.offline_engine(d)))
+    sized = ["Int8", "Int16", "Int32", "Int64", "UInt8", "UInt16", "UInt32", "UInt64", "Float32", "Float64"]
+    targets = ["Int", "Float"] + sized + ["String", "Bool", "Date", "Datetime"]
+    lits = {"lit_int": 300, "lit_float": 1.5, "lit_str": "12", "lit_bool": True, "lit_date": dt.date(2000, 1, 2),
+            "lit_datetime": dt.datetime(2000, 1, 2, 3, 4, 5), "lit_null": None}
+    sources = [("col:" + c, lambda t, c=c: t[c]) for c in ("i", "f", "s", "b", "d", "t", "i16", "i32", "f32")]
+    sources += [("col:i->" + z, lambda t, z=z: t.i.cast(getattr(pdt, z)())) for z in sized]
+    sources += [(k, lambda t, v=v: pdt.lit(v)) for k, v in lits.items()]
+    sources += [("constcol:" + k, lambda t, k=k: ("constcol", k)) for k in ("lit_int", "lit_float", "lit_str")]
+    results, failures, n = [], [], 0
+    for sname, mk in sources:
+        for tgt in targets:
+            for strict in (True, False):
+                for bk, tbl in tables.items():
+                    n += 1
+                    cell = [sname, tgt, strict, bk]
+                    try:
+                        src = mk(tbl)
+                        base = tbl
+                        if isinstance(src, tuple):
+                            base = tbl >> pdt.mutate(zc=lits[src[1]])
+                            src = base.zc
+                        try:
+                            e = src.cast(getattr(pdt, tgt)(), strict=strict)
+                            e.dtype()
+                        except (DataTypeError, TypeError):
+                            results.append((cell, "not-accepted"))
+                            continue
+                        q = base >> pdt.mutate(r=e)
+                        if bk == "polars":
+                            q >> pdt.export(pdt.Polars(lazy=True))
+                            status = "compiled"
+                        else:
+                            sql = q >> pdt.build_query()
+                            msg = one_select(sql)
+                            status = "compiled" if msg is None else "bad-sql:" + msg
+                    except NotSupportedError:
+                        status = "not-supported"
+                    except BaseException as ex:  # noqa: BLE001
+                        reraise_control(ex)
+                        status = f"error:{type(ex).__name__}: {str(ex)[:120]}"
+                    results.append((cell, status))
+                    if status.startswith(("error", "bad-sql")):
+                        failures.append((cell, status))
+    return n, results, failures
+
+
 class C19(Check):
     ID = "C19"
     RULE = ("(a) Hypothesis pipeline strategy (all verbs; SubqueryError answered with alias()) bound to offline engines for "
@@ -130,7 +203,10 @@ class C19(Check):
             "SubqueryError, return the same text when called again (modulo the numbering of SQLAlchemy's id()-based anonymous aliases), and never raise anything else; (b) complete table: "
             "every operator x every declared signature (type variables instantiated with Int64, String, Date) x {Polars, "
             "SQLite, PostgreSQL, MSSQL}: the minimal expression op(col, ..., literal for const parameters) inside mutate / "
-            "summarize compiles (lazy plan resp. SQL text) or raises NotSupportedError. DuckDB and DB2 are not importable "
+            "summarize compiles (lazy plan resp. SQL text) or raises NotSupportedError; (c) complete table: every cast accepted by the "
+            "type checker - source {column of each stored type, column cast to each sized type, literal of each type, constant "
+            "column} x target {Int, Float, sized ints and floats, String, Bool, Date, Datetime} x strict in {True, False} x the "
+            "same four backends - compiles or raises NotSupportedError. DuckDB and DB2 are not importable "
             "offline. non-trivial = pipeline contains a join, union, window function, case, cast or slice_head")
     ASSUMPTIONS = ["duckdb / ibm_db drivers are absent: DuckDbImpl and IbmDb2Impl are not exercised",
                    "PostgreSQL and MSSQL statements are compiled with driver-less dialects and never executed"]
@@ -190,6 +266,12 @@ class C19(Check):
             for name, tys, bk, status in failures:
                 if [name, tys, bk] == case["op_cell"]:
                     out.fail("operator-table", f"{bk}:{name}", f"{bk}: {name}{tys}: {status}")
+            return out
+        if "cast_cell" in case:
+            n, results, failures = cast_table()
+            for cell, status in failures:
+                if cell == case["cast_cell"]:
+                    out.fail("cast-table", _cast_key(cell, status), f"{cell}: {status}")
             return out
         classify_case(case, out)
         try:
@@ -251,8 +333,20 @@ class C19(Check):
                                    {"kind": "operator-table", "key": f"{bk}:{name}", "message": f"{bk}: {name}{tys}: {status}", "extra": {}}))
         from collections import Counter
 
+        n2, results2, failures2 = cast_table()
+        stats.evaluations += n2
+        seen = set()
+        for cell, status in failures2:
+            key = _cast_key(cell, status)
+            if key in seen:
+                continue  # one record per backend and kind of error; the first failing cell is the replay case
+            seen.add(key)
+            stats.failures.append((f"cast-table|{key}", {"cast_cell": cell},
+                                   {"kind": "cast-table", "key": key, "message": f"{cell}: {status}", "extra": {}}))
+        c2 = Counter((cell[3], status.split(":")[0]) for cell, status in results2)
         c = Counter((bk, status.split(":")[0]) for _, _, bk, status in results)
-        return {"operator_table": {"cells": n, "exhaustive": True, "by_backend_status": {f"{k[0]}:{k[1]}": v for k, v in sorted(c.items())},
+        return {"cast_table": {"cells": n2, "exhaustive": True, "by_backend_status": {f"{k[0]}:{k[1]}": v for k, v in sorted(c2.items())}},
+                "operator_table": {"cells": n, "exhaustive": True, "by_backend_status": {f"{k[0]}:{k[1]}": v for k, v in sorted(c.items())},
                                    "not_supported": sorted({f"{bk}:{name}" for name, _, bk, status in results if status == "not-supported"})}}
 
 
